@@ -695,7 +695,9 @@ class Oracle:
             elif l[0] == "Un":
                 cs.append(z3.IntVal(self.UNARY) > p)
             elif l[0] == "TA":
-                cs.append(z3.BoolVal(False))
+                # `x :: T op y` parses as `(x :: T) op y` for every operator except `<`, which the type parser takes for the start of a generic
+                # argument list (checked against full_moon: `a :: T < b` is a parse error, all other operators are accepted)
+                cs.append(op != BV(self.bops["LessThan"]) if "LessThan" in self.bops else z3.BoolVal(True))
             if r[0] == "Bin":
                 cs.append(z3.Or(self.prec(r[1]) > p, z3.And(self.prec(r[1]) == p, self.right(op))))
             return z3.And(cs)
